@@ -46,6 +46,19 @@ def oracle_retry_timing(o, program, refres, exact):
                 # schedule may place after other timers: only the lower bound applies there)
                 out.append(('retry-too-late', f'{nid}: attempt {exp[i]["attempt"]} started {gap}s after the failed '
                                               f'attempt, delay={delay}'))
+    # the delay separates attempts: what follows the LAST attempt (the default value) follows at once
+    defaults = {}
+    for d in o.trace:
+        if d['kind'] == 'default':
+            defaults.setdefault(d['node'], []).append(d)
+    for nid, ds in defaults.items():
+        if not exact or idx[nid]['mode'] in ('thread', 'process'):
+            continue
+        for d in ds:
+            before = [e for e in per.get(nid, []) if e['seq'] < d['seq'] and e.get('t_end') is not None]
+            if before and d['t'] - before[-1]['t_end'] > EPS:
+                out.append(('delay-after-last-attempt', f'{nid}: get_default was called {d["t"] - before[-1]["t_end"]}s '
+                                                        f'after the last attempt failed (delay={idx[nid].get("delay")})'))
     return out
 
 
@@ -205,7 +218,7 @@ def oracle_events(o, program, refres, n_mgrs):
     # managers are called one after another for every emission; when the run ends while an earlier manager is
     # still inside its callback, later managers never see that event: no cross-manager agreement is asserted
     for mgr in sorted(per):
-        out += _events_one_manager(o, [e for e in evs if e['mgr'] == mgr], comp)
+        out += _events_one_manager(o, [e for e in evs if e['mgr'] == mgr], comp, last=mgr == n_mgrs - 1)
     return out
 
 
@@ -223,7 +236,7 @@ def undelivered_bodies(o):
     return out
 
 
-def _events_one_manager(o, ev0, comp):
+def _events_one_manager(o, ev0, comp, last=True):
     out = []
     evs = ev0
     undelivered = undelivered_bodies(o)
@@ -278,6 +291,16 @@ def _events_one_manager(o, ev0, comp):
                 # an execution cut short by the end of the run may lack its complete (also in a successful run: nodes
                 # of a losing candidate may still be in flight). If its value HAD been consumed, the delivery rule
                 # below reports it.
+                started_default = any(x['start']['seq'] < d['seq'] < hi for d in defaults.get(nid, []))
+                if last and x['start'].get('done') is not None and not mine and not started_default:
+                    # (judged on the manager that is called last: the run may end while an earlier manager has
+                    # returned and a later one is still inside its callback)
+                    # the callback returned, so the engine went on: the very next thing it does for the node is to
+                    # invoke its body (or its default). An announced execution that never takes place and is never
+                    # completed is not "one on_node_start followed by one on_node_complete per attempt".
+                    out.append(('start-event-without-execution', f'{nid}: on_node_start was delivered but neither '
+                                                                 f'a body / default invocation nor an '
+                                                                 f'on_node_complete followed'))
                 continue
             forced_default = not mine and any(x['start']['seq'] < d['seq'] < hi for d in defaults.get(nid, []))
             # an attempt is finished for the engine when its body returned AND (executor modes) the completion was
@@ -409,7 +432,18 @@ class C14(EngineCheck):
             case['collab'] = draw(recording_managers())
             return _sanitize(case)
 
-        return st.one_of(*([s()] * 15), delivery_window_templates(tier))
+        @st.composite
+        def shared_failure(draw):
+            # a failing node shared between a losing candidate and other consumers (also as the input of a selected
+            # switch case): nodes that are skipped because a dependency failed have no events at all
+            from verifkit.checks.engine_checks import shared_failure_templates
+
+            case = draw(shared_failure_templates(tier))
+            case['scheds'] = case['scheds'][::3]
+            case['collab'] = draw(recording_managers())
+            return case
+
+        return st.one_of(*([s()] * 15), delivery_window_templates(tier), shared_failure())
 
     def oracle(self, case, refres, obs):
         v = []
